@@ -1295,3 +1295,143 @@ func TestC03_R_PathsCollidingUnder32BitDigests(t *testing.T) {
 		resolve(pairs[i][0])
 	}
 }
+
+// C01 / C07: link widths in the thousands and tens of thousands (builder.DefaultLinksPerBlock is the caller's to set): one
+// node with 4097 .. 70000 links, chunk counts on both sides of the width. The builder's file must equal the reference's
+// (same width, raw leaves, CIDv1) and read back to its content, whole and streamed, also from positions behind thousands
+// of links.
+func TestC07_R_VeryLargeLinkWidths(t *testing.T) { veryLargeLinkWidths(t) }
+func TestC01_R_VeryLargeLinkWidths(t *testing.T) { veryLargeLinkWidths(t) }
+
+func veryLargeLinkWidths(t *testing.T) {
+	for _, c := range []struct{ w, chunks int }{{4097, 4097}, {4097, 4098}, {5000, 4098}, {5000, 9000}, {22311, 22311}, {30000, 30001}, {70000, 65537}} {
+		data := lcgBytes(c.chunks*2-1, byte(c.w), 0) // chunks of 2 bytes, the last one of 1
+		st := NewStore()
+		got, gsz, err := buildFile(st, data, "size-2", c.w)
+		if err != nil {
+			t.Fatalf("C07 width %d, %d chunks: %v", c.w, c.chunks, err)
+		}
+		want, wsz, err := refImportFile(NewStore(), data, refFileOpts{Chunker: "size-2", Width: c.w, RawLeaves: true, CidV1: true})
+		if err != nil {
+			t.Fatalf("reference: %v", err)
+		}
+		if got != want || gsz != wsz {
+			t.Fatalf("C07: link width %d, %d chunks: builder %s / %d, reference %s / %d", c.w, c.chunks, got, gsz, want, wsz)
+		}
+		rn, err := c01Open(st, got, "Reify")
+		if err != nil {
+			t.Fatal(err)
+		}
+		b, err := rn.AsBytes()
+		if err != nil || !bytes.Equal(b, data) {
+			t.Fatalf("C01: link width %d, %d chunks: AsBytes returned %d bytes (err %v), want %d; first difference at %d", c.w, c.chunks, len(b), err, len(data), firstDiff(b, data))
+		}
+		rs, _ := rn.(datamodel.LargeBytesNode).AsLargeBytes()
+		for _, off := range []int64{2*4095 + 1, 2 * 4096, 2*4097 + 1, int64(len(data)) - 3} {
+			if off < 0 || off >= int64(len(data)) {
+				continue
+			}
+			if _, err := rs.Seek(off, io.SeekStart); err != nil {
+				t.Fatal(err)
+			}
+			rest, err := io.ReadAll(rs)
+			if err != nil || !bytes.Equal(rest, data[off:]) {
+				t.Fatalf("C01: link width %d, %d chunks: read from %d returned %d bytes (err %v), want %d", c.w, c.chunks, off, len(rest), err, int64(len(data))-off)
+			}
+		}
+	}
+}
+
+// C01: a file that contains, as one of its own chunks, the exact bytes of a block the builder wrote earlier in the same
+// build (an archive of the file's own blocks, a CAR inside the data it describes): the raw leaf and the dag-pb node have
+// the same digest but are different blocks (different codecs, different links). Both must be stored and read back.
+func TestC01_R_FileEmbeddingItsOwnBlocks(t *testing.T) {
+	for _, c := range []struct{ w, cs int }{{2, 256}, {3, 512}, {174, 16384}} {
+		prefix := lcgBytes(c.w*c.cs, byte(c.w), 0)
+		pst := NewStore()
+		proot, _, err := buildFile(pst, prefix, fmt.Sprintf("size-%d", c.cs), c.w)
+		if err != nil {
+			t.Fatal(err)
+		}
+		block, ok := pst.Get(proot)
+		if !ok || len(block) > c.cs {
+			t.Fatalf("harness: interior block of %d bytes for chunk size %d", len(block), c.cs)
+		}
+		// the first w chunks are grouped under a node with exactly these bytes; the next chunk IS these bytes
+		data := append(append([]byte{}, prefix...), block...)
+		data = append(data, lcgBytes(c.cs+7, 99, 0)...)
+		st := NewStore()
+		root, _, err := buildFile(st, data, fmt.Sprintf("size-%d", c.cs), c.w)
+		if err != nil {
+			t.Fatalf("C01 self-embedding (w=%d): build: %v", c.w, err)
+		}
+		if _, ok := st.Get(proot); !ok {
+			t.Fatalf("harness: the embedded node %s is not part of the larger file", proot)
+		}
+		for _, how := range []string{"Reify", "NewUnixFSFile", "unixfs-preload"} {
+			if err := c01CheckRead(st, root, data, how, 4096); err != nil {
+				t.Fatalf("C01: file of %d bytes (width %d, chunks of %d) whose chunk #%d is the dag-pb block over its first %d chunks: %v", len(data), c.w, c.cs, c.w+1, c.w, err)
+			}
+		}
+	}
+}
+
+// C08: several goroutines read reference-written HAMTs of different fanouts at the same time, each its own directory
+// through its own store and link system (what a gateway does all day): each reads exactly its reference's entry set,
+// whatever the others are reading. (Fanouts 8/16, 256 and 1024 have link-name prefixes of 1, 2 and 3 characters.)
+func TestC08_R_ConcurrentIndependentReaders(t *testing.T) {
+	const G, rounds = 8, 150
+	type job struct {
+		st     *Store
+		root   cid.Cid
+		want   map[string]cid.Cid
+		fanout int
+	}
+	jobs := make([]job, G)
+	for g := range jobs {
+		st := NewStore()
+		var es []entrySpec
+		want := map[string]cid.Cid{}
+		for i := 0; i < 90; i++ {
+			e := entryForKind(fmt.Sprintf("file-%d-%d", g, i), 1, 0)
+			es = append(es, e)
+			want[e.Name] = e.Cid
+		}
+		fanout := []int{16, 256, 1024, 8}[g%4]
+		root, _, err := refBuildShard(st, es, fanout)
+		if err != nil {
+			t.Fatal(err)
+		}
+		st.Yield = g%2 == 1
+		jobs[g] = job{st, root, want, fanout}
+	}
+	errs := make(chan string, G)
+	var wg sync.WaitGroup
+	for g := 0; g < G; g++ {
+		wg.Add(1)
+		go func(g int) {
+			defer wg.Done()
+			defer func() {
+				if p := recover(); p != nil {
+					errs <- fmt.Sprintf("goroutine %d: panic %v", g, p)
+				}
+			}()
+			j := jobs[g]
+			for r := 0; r < rounds; r++ {
+				dir, err := loadReified(j.st.LinkSystem(), j.root, []string{"unixfs", "unixfs-preload"}[r%2])
+				if err == nil {
+					err = checkDirIsMapOpt(dir, j.want, []string{"nope", fmt.Sprintf("file-%d-0", (g+1)%G)}, r%2 == 0)
+				}
+				if err != nil {
+					errs <- fmt.Sprintf("goroutine %d round %d: reference-written HAMT of fanout %d with %d entries: %v", g, r, j.fanout, len(j.want), err)
+					return
+				}
+			}
+		}(g)
+	}
+	wg.Wait()
+	close(errs)
+	for e := range errs {
+		t.Fatalf("C08: %d goroutines each reading their own reference-written directory (different fanouts) at the same time: %s", G, e)
+	}
+}
